@@ -336,8 +336,12 @@ NEUTRAL = [
     # twins of the round-6 rules (fourth session)
     dict(id="N35-vec-decode-clamps-only-the-preallocation", file="crates/serialize/src/decode.rs",
          edits=[("""        let len = decoder.read_usize()?;
-        let mut vec = Self::with_capacity(len);""", """        let len = decoder.read_usize()?;
-        let mut vec = Self::with_capacity(len.min(1 << 16));""")]),
+        let mut vec = Self::with_capacity(len);
+        for _ in 0..len {
+            vec.push(T::decode(decoder, plugin, session)?);""", """        let len = decoder.read_usize()?;
+        let mut vec = Self::with_capacity(len.min(1 << 16));
+        for _ in 0..len {
+            vec.push(T::decode(decoder, plugin, session)?);""")]),
     dict(id="N36-abort-callee-guard-as-two-early-returns", file=CG + "computing.rs",
          edits=[("""        if request.in_flight > 0 || request.kept {
             return;
